@@ -161,4 +161,144 @@ theorem parse_toCompact (d : DNA) (h : viewNorm d = true) : parse (toCompact d) 
       have : toCompact (.mk v (c :: cs')) = toNested (.mk v (c :: cs')) := rfl
       rw [this]; exact parse_toNested _ h
 
+/-! ### the compact form as the code recurses (empty DNAs below the root are `null`) -/
+
+theorem toCompactDeep_tuple_len : ∀ (d : DNA) (xs : List Nest), toCompactDeep d = .tuple xs → 2 ≤ xs.length
+  | .mk v cs, xs, h => by
+    by_cases hv : v = .none
+    · subst hv
+      cases cs with
+      | nil => simp [toCompactDeep, toCompactDeepList, nestNodeC] at h
+      | cons c cs => simp [toCompactDeep, toCompactDeepList, nestNodeC, nestNode] at h
+    · match cs, h with
+      | [], h => rw [toCompactDeep, toCompactDeepList, nestNodeC] at h; cases h
+      | [c], h =>
+        rw [toCompactDeep, toCompactDeepList, toCompactDeepList, nestNodeC] at h
+        cases hc : toCompactDeep c with
+        | v x => rw [hc, nestNode_single_v v hv] at h; cases h; simp
+        | list ys => rw [hc, nestNode_single_list v hv] at h; cases h; simp
+        | tuple ys =>
+          rw [hc, nestNode_single_tuple v hv] at h
+          cases h
+          have := toCompactDeep_tuple_len c ys hc
+          simp; omega
+      | c1 :: c2 :: rest, h =>
+        rw [toCompactDeep, toCompactDeepList, toCompactDeepList, nestNodeC, nestNode_two v hv] at h
+        cases h; simp
+
+mutual
+  theorem parse_toCompactDeep' : ∀ (d : DNA), viewNorm d = true → parse (toCompactDeep d) = some d
+    | .mk v cs, h => by
+      simp only [viewNorm, Bool.and_eq_true] at h
+      obtain ⟨⟨h1, h2⟩, h3⟩ := h
+      have ihl := parseList_toCompactDeepList cs h3
+      by_cases hv : v = .none
+      · subst hv
+        match cs, h1, ihl with
+        | [], _, _ => rfl
+        | [c], h1, _ => simp at h1
+        | c1 :: c2 :: rest, _, ihl =>
+          simp only [toCompactDeepList] at ihl
+          simp only [toCompactDeep, toCompactDeepList, nestNodeC, nestNode, parse, ihl]
+      · match cs, h1, h2, h3, ihl with
+        | [], _, _, _, _ => rfl
+        | [c], h1, h2, h3, ihl =>
+          have hnum : v.isNum = true := by
+            simp only [List.isEmpty_cons, Bool.false_or, Bool.or_eq_true, beq_iff_eq] at h2
+            rcases h2 with h2 | h2
+            · exact absurd h2 hv
+            · exact h2
+          have hnv := numVal_of_isNum v hnum
+          simp only [viewNormList, Bool.and_eq_true] at h3
+          have ihc := parse_toCompactDeep' c h3.1
+          cases c with
+          | mk w gs =>
+            have hw : w ≠ .none := by
+              intro e; subst e
+              cases v <;> simp at h1
+            rw [toCompactDeep, toCompactDeepList, toCompactDeepList, nestNodeC]
+            cases hc : toCompactDeep (.mk w gs) with
+            | v x =>
+              rw [nestNode_single_v v hv]
+              -- a leaf child
+              rw [hc] at ihc
+              simp only [parse, Option.some.injEq] at ihc
+              cases ihc
+              cases w with
+              | none => exact absurd rfl hw
+              | int i => simp [parse, parseTuple, hnv]
+              | flt n d => simp [parse, parseTuple, hnv]
+              | str s => simp [parse, parseTuple, hnv]
+            | list ys =>
+              exfalso
+              cases gs with
+              | nil => rw [toCompactDeep, toCompactDeepList, nestNodeC] at hc; cases hc
+              | cons g gs' =>
+                cases gs' with
+                | nil =>
+                  rw [toCompactDeep, toCompactDeepList, toCompactDeepList, nestNodeC] at hc
+                  cases hg : toCompactDeep g with
+                  | v x => rw [hg, nestNode_single_v w hw] at hc; cases hc
+                  | list zs => rw [hg, nestNode_single_list w hw] at hc; cases hc
+                  | tuple zs => rw [hg, nestNode_single_tuple w hw] at hc; cases hc
+                | cons g2 gs2 =>
+                  rw [toCompactDeep, toCompactDeepList, toCompactDeepList, nestNodeC, nestNode_two w hw] at hc; cases hc
+            | tuple ys =>
+              rw [nestNode_single_tuple v hv]
+              have hlen := toCompactDeep_tuple_len _ ys hc
+              rw [hc] at ihc
+              match ys, hlen, ihc with
+              | t1 :: t2 :: ts, _, ihc =>
+                simp only [parse] at ihc
+                simp [parse, parseTuple, hnv, ihc]
+        | c1 :: c2 :: rest, h1, h2, h3, ihl =>
+          have hnum : v.isNum = true := by
+            simp only [List.isEmpty_cons, Bool.false_or, Bool.or_eq_true, beq_iff_eq] at h2
+            rcases h2 with h2 | h2
+            · exact absurd h2 hv
+            · exact h2
+          have hnv := numVal_of_isNum v hnum
+          rw [toCompactDeep]
+          simp only [toCompactDeepList] at ihl ⊢
+          rw [nestNodeC, nestNode_two v hv]
+          simp [parse, parseTuple, hnv, ihl]
+  theorem parseList_toCompactDeepList : ∀ (cs : List DNA), viewNormList cs = true →
+      parseList (toCompactDeepList cs) = some cs
+    | [], _ => rfl
+    | c :: cs, h => by
+      simp only [viewNormList, Bool.and_eq_true] at h
+      simp [toCompactDeepList, parseList, parse_toCompactDeep' c h.1, parseList_toCompactDeepList cs h.2]
+end
+
+
+theorem parse_toCompactDeep (d : DNA) (h : viewNorm d = true) : parse (toCompactDeep d) = some d :=
+  parse_toCompactDeep' d h
+
+/-- The two compact forms agree unless an empty DNA is a child. -/
+theorem toCompactDeep_root (v : Val) : toCompactDeep (.mk v []) = toCompact (.mk v []) := rfl
+
+/-! ### the verbose JSON form -/
+
+theorem mk'_of_viewNorm (v : Val) (cs : List DNA) (h : viewNorm (.mk v cs) = true) : mk' v cs = .mk v cs := by
+  simp only [viewNorm, Bool.and_eq_true] at h
+  obtain ⟨⟨h1, _⟩, _⟩ := h
+  match cs, h1 with
+  | [], _ => cases v <;> rfl
+  | [.mk w gs], h1 =>
+    cases w with
+    | none => cases v <;> simp at h1
+    | int i => cases v <;> first | (simp at h1; done) | rfl
+    | flt a b => cases v <;> first | (simp at h1; done) | rfl
+    | str t => cases v <;> first | (simp at h1; done) | rfl
+  | (.mk w1 g1) :: c2 :: rest, _ => cases w1 <;> cases v <;> rfl
+
+/-- `from_json(d.to_json(compact=False)) == d`. -/
+theorem parseVerbose_toVerbose (d : DNA) (h : viewNorm d = true) : parseVerbose (toVerbose d) = some d := by
+  cases d with
+  | mk v cs =>
+    have hl : viewNormList cs = true := by
+      simp only [viewNorm, Bool.and_eq_true] at h; exact h.2
+    simp only [toVerbose, parseVerbose, parseList_toCompactDeepList cs hl, Option.map_some]
+    rw [mk'_of_viewNorm v cs h]
+
 end Pg.Geno
